@@ -50,3 +50,33 @@ func VerifTreeInfo(r *Router) (size int, maxParams, depth uint32) {
 	t := r.getRoot()
 	return t.size, t.maxParams, t.depth
 }
+
+// VerifNode is a read-only copy of one radix node (verification builds only).
+type VerifNode struct {
+	Key      string
+	Route    string // pattern registered at this node, "" if none
+	Children []VerifNode
+}
+
+// VerifDump copies the published tree of every method into plain values.
+func VerifDump(r *Router) map[string]VerifNode {
+	t := r.getRoot()
+	out := make(map[string]VerifNode, len(t.root))
+	var cp func(n *node) VerifNode
+	cp = func(n *node) VerifNode {
+		v := VerifNode{Key: n.key}
+		if n.route != nil {
+			v.Route = n.route.pattern
+		}
+		for _, c := range n.children {
+			v.Children = append(v.Children, cp(c))
+		}
+		return v
+	}
+	for _, root := range t.root {
+		v := cp(root)
+		v.Key = "" // the key of a root node is the method
+		out[root.key] = v
+	}
+	return out
+}
